@@ -15,6 +15,7 @@ import NemoVerif.Lemmas.Closed
 import NemoVerif.Lemmas.V1Compile
 import NemoVerif.Lemmas.Expand
 import NemoVerif.Lemmas.ExpandPath
+import NemoVerif.Lemmas.ExpandInPlace
 namespace NemoVerif.C12
 open NemoVerif NemoVerif.Closed NemoVerif.V1Compile NemoVerif.Expand
 
@@ -302,6 +303,51 @@ theorem expand_labels_fresh (cb : Option (Lbl × Lbl)) (ss : List Stmt) (hwf : w
 theorem fork_template_closed (v : Variant) (pre : Nat → String) (gens : List Gen) (hg : ∀ g ∈ gens, GenOK [] g) (c : Nat) :
     Closed (forkTemplate v pre gens c).1 :=
   closed_of_inv _ c (forkTemplate_ok [] v pre gens hg c)
+
+/-! ### Re-compilation of the same parsed flow (phase 4) — open finding `2.x:dangling-target@recompiled-ast`
+
+  C12 speaks about every compiled flow the runtime ever executes.  The parsed flows of a `RailsConfig` are compiled once per
+  runtime created from it, and `expand_elements` writes the loop labels INTO the parsed `Break` / `Continue` elements
+  (`Models/ExpandInPlace.lean`: `expandA ip`, the label slots of the AST are state; `recompile ip ss k sl c` = the
+  `k+1`-st compilation).  Full statement one would like for the code as it is (`ip = true`) — NOT true:
+      ∀ ss, wfList ss → ∀ k sl c, Unlabelled sl → Closed (recompile true ss k sl c).1 -/
+
+/-- The code as it is: the first compilation of `while c: if d: break` is closed, the second compilation of the same
+    parsed flow is not — the `Break` keeps the `_while_end_` label of the first compilation, which the second one does
+    not define (finite witness, by evaluation; replayed on the real code by harness/corpus/C12/runtime_histories.json). -/
+theorem recompile_as_is_counterexample :
+    wfList [.whileS [.ifS [.brk] []]] = true ∧
+    closed (recompile true [.whileS [.ifS [.brk] []]] 0 [none] 0).1 = true ∧
+    closed (recompile true [.whileS [.ifS [.brk] []]] 1 [none] 0).1 = false ∧
+    (recompile true [.whileS [.ifS [.brk] []]] 1 [none] 0).1 =
+      [.label ("_while_begin_", 3), .goto ("_while_end_", 3), .goto ("if_end_label_", 5),
+       .brk (some ("_while_end_", 0)), .label ("if_end_label_", 5), .goto ("_while_begin_", 3), .label ("_while_end_", 3)] := by
+  decide
+
+/-- Both modes: the FIRST compilation of a freshly parsed flow (no label set) is the expansion `Models/Expand.lean`
+    describes, so everything proved about `expand` holds for it. -/
+theorem recompile_first_is_expand (ip : Bool) (ss : List Stmt) (sl : Slots) (c : Nat) (h : Unlabelled sl) :
+    (recompile ip ss 0 sl c).1 = (expand none ss c).1 :=
+  recompile_first ip ss sl c h
+
+/-- The repaired compiler (fixes/C12-loop-exit-label-in-place.diff: the label goes into a NEW Break / Continue element):
+    EVERY compilation of the same parsed flow — the first, the second, the `k+1`-st, from whatever value the uid counter
+    has reached — is closed, for every well-formed program of the modelled grammar. -/
+theorem recompile_closed (ss : List Stmt) (hwf : wfList ss = true) (k : Nat) (sl : Slots) (c : Nat) (h : Unlabelled sl) :
+    Closed (recompile false ss k sl c).1 :=
+  recompile_repaired_closed ss hwf k sl c h
+
+/-- non-vacuity: the witness program of the finding, third compilation, repaired mode (finite fact, by evaluation) -/
+example : wfList [.whileS [.ifS [.brk] [.cont]]] = true ∧ Unlabelled [none, none] ∧
+    closed (recompile false [.whileS [.ifS [.brk] [.cont]]] 2 [none, none] 0).1 = true ∧
+    (recompile false [.whileS [.ifS [.brk] [.cont]]] 2 [none, none] 0).1.contains (.brk (some ("_while_end_", 6))) = true := by
+  refine ⟨by decide, ?_, by decide, by decide⟩
+  intro o ho; simpa using ho
+
+/-- as is, programs in which no Break / Continue sits inside a loop are not affected: partial statement excluding exactly
+    the finding's region is `recompile_first_is_expand` + the fact that only `Break` / `Continue` carry state; the harness
+    checks every re-compilation of the real compiler with the proved checker `closed` (families v2rt / v2ast:again). -/
+example : closed (recompile true [.ifS [.brk] [], .whileS [.send]] 1 [none] 0).1 = true := by decide
 
 /-! ### Path-level safety of ALL expansions (phase 3)
 
